@@ -38,6 +38,24 @@ def dims(*d, scale_by=1):
   return Rec('dims', [('scale_by', scale_by)], tuple(d), {})
 
 
+import enum as _enum
+
+
+class Kind(_enum.Enum):
+  FAST = 1
+  SLOW = 2
+
+
+def gather(*items, sink=None, note=None):
+  """*args plus keywords: chained partials bind the positional group and the keywords apart."""
+  return Rec('gather', [('sink', sink), ('note', note)], tuple(items), {})
+
+
+def front(a, /, v=None, w=None):
+  """A positional-only parameter followed by keywords."""
+  return Rec('front', [('a', a), ('v', v), ('w', w)], (), {})
+
+
 class QuotaError(Exception):
   """A user-defined exception class: a configurable callable like any other class."""
 
